@@ -202,10 +202,27 @@ Proof.
   - unfold A. rewrite firstn_length. lia.
 Qed.
 
-Lemma srep_frame : forall T j y sm sm', (forall a, mget sm' (wmp P j ++ a) = mget sm (wmp P j ++ a)) -> w_srep P T j y sm -> w_srep P T j y sm'.
+Lemma names_frame : forall T i sm sm',
+  (forall k, (forall x, k <> wmp P i ++ x) -> k <> "%mask" -> k <> "%nxt_iv" -> mget sm' k = mget sm k) -> (i < T)%nat ->
+  sm_names_ok P T sm -> sm_names_ok P T sm'.
 Proof.
-  intros T j y sm sm' G (Hy1 & Hy2 & (wcj & Hy3 & Hy4) & Hy5). unfold w_srep. rewrite !G.
-  split; [exact Hy1|]. split; [exact Hy2|]. split; [exists wcj; split; assumption|exact Hy5].
+  intros T i sm sm' Hfr Hi [N1 N2]. split.
+  - intros n y Hn. rewrite Hfr; [apply N1; exact Hn| | |].
+    + intros x E. unfold wmp in E. change (heap_name (wp_h P + 4 + i) ++ ".")%string with (RefineE2ENames.hobj (wp_h P + 4 + i)) in E.
+      apply RefineE2ENames.hobj_inj in E. lia.
+    + rewrite RefineE2ENames.hobj_app. discriminate.
+    + rewrite RefineE2ENames.hobj_app. discriminate.
+  - intros r. rewrite Hfr; [apply N2| | |].
+    + intros x E. unfold wmp, heap_name in E. cbn [append] in E. discriminate E.
+    + cbn [append]. discriminate.
+    + cbn [append]. discriminate.
+Qed.
+
+Lemma srep_frame : forall T j y sm sm', (forall a, mget sm' (wmp P j ++ a) = mget sm (wmp P j ++ a)) -> sm_names_ok P T sm' ->
+  w_srep P T j y sm -> w_srep P T j y sm'.
+Proof.
+  intros T j y sm sm' G HN (Hy1 & Hy2 & (wcj & Hy3 & Hy4) & Hy5 & _). unfold w_srep. rewrite !G.
+  split; [exact Hy1|]. split; [exact Hy2|]. split; [exists wcj; split; assumption|]. split; [exact Hy5|exact HN].
 Qed.
 
 Local Instance LYW : Layout := wlayout P.
@@ -241,7 +258,7 @@ Proof.
   set (l1 := [("block", VPtr o (16 * (r - 1))%Z)]).
   set (s0 := tst (sh_of c T pad input0 d0) l1 q).
   (* the stream object *)
-  destruct Hx as (Hiv & Biv & (wc & Hw & Hlw) & Hkk).
+  destruct Hx as (Hiv & Biv & (wc & Hw & Hlw) & Hkk & HN).
   assert (Hrep : mode_rep_q ks q x (mem s0)).
   { unfold mode_rep_q, s0. cbn [mem tst sh_of]. change (mem_of c T pad d0) with (w_mem_of P c T pad d0).
     split; [apply (w_tabs_ok P OK)|]. unfold q. rewrite !(mget_sm P OK). unfold d0. cbn [dset with_bufs d_sm].
@@ -256,6 +273,7 @@ Proof.
   unfold s0 in Hchain. cbn [mem tst sh_of] in Hchain. change (mem_of c T pad d0) with (w_mem_of P c T pad d0) in Hchain.
   destruct (chain_mem c T pad d0 i m' Hi Lb0 Hchain) as (cells' & sm' & Em & Hfr).
   rewrite NB in Em.
+  assert (HN' : sm_names_ok P T sm') by (apply (names_frame T i (d_sm d) sm' Hfr Hi HN)).
   assert (Ed' : dset d0 i (mb_with_cells cells' B) = dset d i (mb_with_cells cells' B)).
   { unfold d0, dset. cbn [with_bufs d_bufs d_turn d_over d_live d_sm d_pos d_eof d_out]. rewrite set_nth_set_nth. reflexivity. }
   rewrite Ed' in Em. set (d' := with_sm (dset d i (mb_with_cells cells' B)) sm') in *.
@@ -294,7 +312,7 @@ Proof.
       destruct Hout as [_ Hby]. unfold bytesb in Hby. rewrite forallb_forall in Hby. specialize (Hby y Hy). unfold byte_ok in Hby.
       apply N.ltb_lt in Hby. lia.
     + intros j Nj [y Hy]. exists y. change (w_srep P T j y sm'). change (w_srep P T j y (d_sm d)) in Hy.
-      apply (srep_frame T j y (d_sm d) sm'); [|exact Hy].
+      apply (srep_frame T j y (d_sm d) sm'); [|exact HN'|exact Hy].
       intros a. rewrite Hfr; [reflexivity| | |].
       * intros x0 E. apply Nj. apply (mp_inj j i a x0 E).
       * intros E. pose proof (hnum_mp P j a) as Hh. rewrite E in Hh. discriminate Hh.
@@ -304,11 +322,11 @@ Proof.
       * destruct Hrep' as (_ & R1 & R2 & (wc' & R3 & R4) & R5). rewrite Em in R1, R3, R5. unfold q in R1, R3, R5. rewrite !(mget_sm P OK) in R1, R3, R5.
         unfold d' in R1, R3, R5. cbn [with_sm d_sm] in R1, R3, R5.
         change (w_srep P T i (fst (runcry (aes_enc_with ks) (aes_dec_with ks) kind x blk)) sm').
-        split; [exact R1|]. split; [exact R2|]. split; [exists wc'; split; assumption|exact R5].
+        split; [exact R1|]. split; [exact R2|]. split; [exists wc'; split; assumption|]. split; [exact R5|exact HN'].
       * exact Ec'.
       * reflexivity.
       * intros j y Nj Hy. change (w_srep P T j y sm'). change (w_srep P T j y (d_sm d)) in Hy.
-        apply (srep_frame T j y (d_sm d) sm'); [|exact Hy].
+        apply (srep_frame T j y (d_sm d) sm'); [|exact HN'|exact Hy].
         intros a. rewrite Hfr; [reflexivity| | |].
         -- intros x1 E. apply Nj. apply (mp_inj j i a x1 E).
         -- intros E. pose proof (hnum_mp P j a) as Hh. rewrite E in Hh. discriminate Hh.
